@@ -25,8 +25,11 @@ type Case struct {
 	Prior     int    `json:"memoize_calls_before_build,omitempty"` // impl.MemoCount when the grammar was built (replay burns up to it)
 	Burn      int    `json:"burn_indexes,omitempty"`               // throw-away Memoize calls made before the last shared sub-parser was built
 	Grammar   string `json:"grammar"`
-	Input     string `json:"input"`
-	Note      string `json:"note,omitempty"`
+	// History: the inputs parsed earlier with the SAME grammar object (a grammar is built once and used for
+	// every input of the enumeration); replayed first, in order, so that state kept in the parser graph is reproduced
+	History []string `json:"inputs_parsed_before_with_this_grammar,omitempty"`
+	Input   string   `json:"input"`
+	Note    string   `json:"note,omitempty"`
 }
 
 func (c Case) String() string {
